@@ -44,6 +44,10 @@ CLAIMED = {
   text="Bounded symbolic execution of the real verifier tree walks (header and status verifiers, filter.Filter and fifo.Group Verify*/Reset*, martianhttp.Modifier, MultiError flattening) from SSA over histories of traffic, verification queries and resets on six verifier-bearing configuration shapes. Every exchange carries symbolic header bytes, a symbolic status and a symbolic API-request flag, so z3 decides which expectations are met and which branch is taken; the oracle is a counter model (one error per unmet evaluation since the last reset, flattened, none lost or duplicated, API requests never counted, reset clears both branches). The data-race clause is decided by the engine's lock-discipline monitor: MultiError.errs must be accessed under MultiError.mu and verifier error fields written only under a write lock.",
   note="Bounds: histories of 3 (quick) / 4 (thorough) operations; shapes: verifier under group, filter true branch, filter else branch, nested groups + status verifier, verifiers in both branches, filter inside group. Queries go through martianhttp.Modifier, not through the HTTP verify handlers' JSON encoding. Interleavings are not enumerated (lockset argument). Trusted: go/ssa, symgo, z3; encoding/json decoding is an engine model.",
   ref="DESIGN.md section 6, C13"),
+ "C18": dict(
+  text="Bounded symbolic execution of the real shaped write path (Conn.Write, WriteDefaultBuckets, GetNextActionFromByte/Index, GetCurrentThrottle, CheckExistenceAndValidity, Bucket.FillThrottleLocked/SetCapacity, parseShapes, getActionsFromThrottles, Handler.ServeHTTP, Listener.GetTrafficShapedConn, Conn.Close) from SSA. The halt, close and throttle byte offsets and the range start are symbolic 64-bit integers, the response is written as head + symbolic body in every split into up to three writes: z3 decides every relation between offsets, range start and write boundaries. Asserted: delivered bytes are a prefix of what was written and Write returns their count; a close action at offset k delivers head + exactly k - rangeStart body bytes and then ErrForceClose; a halt sleeps at least its duration; binary searches agree with a linear scan; JSON configurations with symbolic throttle bounds are accepted iff valid, rejected ones leave shapes/defaults/capacities/modification time untouched, an earlier connection keeps its view; closing a connection closes the buckets created for it.",
+  note="Bounds: offsets in [0,4] (quick) / [0,6] (thorough), body 3 / 4 bytes, head 2 bytes, up to two (quick) or three (thorough) of halt/close/throttle at once, one shape. The bucket drain goroutine is replaced by a model (drain when a writer would spin; thorough: also at any earlier check); tickers never fire; time.Sleep is recorded, wall-clock rates are outside the claim. The URL-match in proxy.go that selects the shape is not part of this check. Trusted: go/ssa, symgo, z3.",
+  ref="DESIGN.md section 6, C18"),
 }
 
 NOT_YET = "check not built yet in this round; planned with the same technique (DESIGN.md section 6)"
